@@ -64,7 +64,7 @@ PROPS = {
     "C05": dict(modules=["Rosmar.Properties.C05", "Rosmar.Gen.TieSqlAdd", "Rosmar.Gen.TieSqlSet", "Rosmar.Gen.TieSqlWcas", "Rosmar.Gen.TieSqlRemove", "Rosmar.Gen.TieSqlXattr", "Rosmar.Gen.TieSqlPurge", "Rosmar.Gen.TieSqlProps"], slices=[KV, FEEDS, MULTI],
                 proj=P(rb=["row", "row.v", "row.tomb", "row.x", "row.exp", "gr", "ex", "gwx"], ev=["k", "op", "cas"], results=True),
                 what="tombstone flag, body, xattrs, expiry, reads, feed opcodes"),
-    "C06": dict(modules=["Rosmar.Properties.C06", "Rosmar.Gen.TieSqlAdd", "Rosmar.Gen.TieSqlWcas", "Rosmar.Gen.TieSqlXattr", "Rosmar.Gen.TieSqlProps"], slices=[KV, KVD],
+    "C06": dict(modules=["Rosmar.Properties.C06", "Rosmar.Gen.TieSqlAdd", "Rosmar.Gen.TieSqlWcas", "Rosmar.Gen.TieSqlXattr", "Rosmar.Gen.TieSqlProps"], slices=[KV, KVD, MULTI],
                 proj=P(rb=ROW, results=True, ops={"add", "wcas", "wrx", "wwx"}),
                 what="results of insert-style writes and the row before/after"),
     "C07": dict(modules=["Rosmar.Properties.C07", "Rosmar.Gen.TieSqlSet", "Rosmar.Gen.TieSqlWcas", "Rosmar.Gen.TieSqlRemove", "Rosmar.Gen.TieSqlXattr"], slices=[KV, KVD],
@@ -189,7 +189,7 @@ def extra_C20(tier, seed, log):
     return shutdown.run(tier, seed, log)
 
 
-EXTRA = {"C04": extra_C04, "C20": extra_C20, "C10": extra_C10, "C14": extra_C14, "C03": extra_C03, "C13": extra_sched("C13"), "C08": extra_sched("C08"), "C09": extra_sched("C09"), "C15": extra_C15, "C16": extra_sched("C16"), "C18": extra_sched("C18")}
+EXTRA = {"C04": extra_C04, "C20": extra_C20, "C10": extra_C10, "C14": extra_C14, "C03": extra_C03, "C13": extra_sched("C13"), "C08": extra_sched("C08"), "C09": extra_sched("C09"), "C15": extra_C15, "C16": extra_sched("C16"), "C18": extra_sched("C18"), "C02": extra_sched("C02")}
 
 
 def load_lines(path):
